@@ -85,6 +85,8 @@ class _CanonIf(ast.NodeTransformer):
                 s_ = st.body[:-1]
                 if s_:
                     new = ast.copy_location(ast.If(test=st.test, body=s_, orelse=rest), st)
+                    while isinstance(new.test, ast.UnaryOp) and isinstance(new.test.op, ast.Not):      # canonical polarity of the two-armed form
+                        new.test, new.body, new.orelse = new.test.operand, new.orelse, new.body
                 else:
                     t = st.test
                     neg = t.operand if (isinstance(t, ast.UnaryOp) and isinstance(t.op, ast.Not)) else ast.copy_location(ast.UnaryOp(op=ast.Not(), operand=t), t)
